@@ -132,6 +132,15 @@ def cases(draw, two_writes=False):
                 arr2 = np.array(vals2, dtype=np.float64 if code[0] == 'f' else object).astype(bo + code)
             spec['second']['index_data'] = model.array_spec_from(arr2)
             spec['second']['index_data']['dt'] = bo + code
+        if draw(st.integers(0, 2)) == 0:
+            # values the user assigns between the two writes (they must be written unchanged by the second write)
+            ub = {}
+            for k in ('index_min', 'index_max', 'spacing', 'direction'):
+                if k not in user and draw(st.integers(0, 2)) == 0:
+                    ub[k] = draw(st.sampled_from(['INCREASING', 'DECREASING'])) if k == 'direction' else \
+                        draw(st.floats(-1000, 1000))
+            if ub:
+                spec['second']['user_between'] = ub
     return spec
 
 
@@ -301,6 +310,9 @@ class C13(Property):
                 kw2.pop('to_idx', None)
                 kw2['from_idx'] = second['from']
                 kw2['to_idx'] = second['to']
+                for k, v in (second.get('user_between') or {}).items():
+                    getattr(b.items[(0, 3)], k).value = v
+                    user[k] = {'v': v}
                 if 'index_data' in second:
                     data2 = dict(data)
                     data2['INDEX'] = model.make_array(second['index_data'])
